@@ -3,12 +3,14 @@ package larking
 import (
 	"context"
 	"net"
+	"time"
 
 	"github.com/gobwas/ws"
 	"github.com/gobwas/ws/wsutil"
 	"google.golang.org/grpc"
 	"google.golang.org/grpc/codes"
 	"google.golang.org/grpc/metadata"
+	"google.golang.org/grpc/stats"
 	"google.golang.org/grpc/status"
 	"google.golang.org/protobuf/encoding/protojson"
 	"google.golang.org/protobuf/proto"
@@ -24,6 +26,7 @@ type streamWS struct {
 	trailer    metadata.MD
 	params     params
 	maxRecv    int // maximum size of a received message, 0 for no limit
+	stats      stats.Handler
 	recvN      int
 	sendN      int
 	sentHeader bool
@@ -75,6 +78,9 @@ func (s *streamWS) SendMsg(v interface{}) error {
 	if err := wsutil.WriteServerMessage(s.conn, ws.OpText, b); err != nil {
 		return err
 	}
+	if sh := s.stats; sh != nil {
+		sh.HandleRPC(s.ctx, outPayload(false, v, b, time.Now()))
+	}
 	return nil
 }
 
@@ -82,6 +88,7 @@ func (s *streamWS) RecvMsg(m interface{}) error {
 	s.recvN += 1
 	args := m.(proto.Message)
 
+	var b []byte
 	if s.method.hasBody {
 		cur, err := mutablePath(args.ProtoReflect(), s.method.body)
 		if err != nil {
@@ -90,7 +97,7 @@ func (s *streamWS) RecvMsg(m interface{}) error {
 
 		msg := cur.Interface()
 
-		b, _, err := wsutil.ReadClientData(s.conn)
+		b, _, err = wsutil.ReadClientData(s.conn)
 		if err != nil {
 			return err
 		}
@@ -109,6 +116,9 @@ func (s *streamWS) RecvMsg(m interface{}) error {
 		if err := s.params.set(args); err != nil {
 			return err
 		}
+	}
+	if sh := s.stats; sh != nil {
+		sh.HandleRPC(s.ctx, inPayload(false, m, b, time.Now()))
 	}
 	return nil
 }
